@@ -1,3 +1,4 @@
-(* Engine entry points for C17: run_c17 sub-op case.  (stub until the property's model exists) *)
-From Pan Require Import Base.Common Base.Sx.
-Definition run_c17 (sub : Z) (x : sx) : sx := SL [SZ (-1)].
+(* Engine entry points for C17: the same scheduler and oracles as C16 (sessions, crashes and several
+   components are events / components of the same executable model). *)
+From Pan Require Import Base.Common Base.Sx Model.Aggregator Run.R16.
+Definition run_c17 (sub : Z) (x : sx) : sx := run_c16 sub x.
